@@ -731,6 +731,46 @@ func (g *c34Gen) genOutputs() {
 	}
 }
 
+// genViewKeys: entries that reuse a previous SPEND key under a different VIEW
+// key. A custodian address with a known spend key and another view key is a
+// new custodian address (price 100); a payee whose view key changed is a
+// changed payee (price 1). Amounts around the reference price.
+func (g *c34Gen) genViewKeys() {
+	w := g.w
+	view := func(role string, k int) crypto.Key { return fixc.Key(fmt.Sprintf("c34-view-%s-%d", role, k)).Public() }
+	var variant [4][7]*c34Ent // [kind][slot]; kind 1 = custodian view, 2 = payee view, 3 = both
+	for k := 0; k < 7; k++ {
+		sl := w.Slots[k]
+		custV := common.Address{PublicSpendKey: sl.Cust.PublicSpendKey, PublicViewKey: view("cust", k)}
+		payeeV := common.Address{PublicSpendKey: sl.Payee.PublicSpendKey, PublicViewKey: view("payee", k)}
+		variant[0][k] = w.base[k]
+		variant[1][k] = w.encode(fmt.Sprintf("e%d-cv", k), custV, sl.Payee, sl.Signer.PrivateSpendKey, sl.Payee.PrivateSpendKey, sl.Cust.PrivateSpendKey)
+		variant[2][k] = w.encode(fmt.Sprintf("e%d-pv", k), sl.Cust, payeeV, sl.Signer.PrivateSpendKey, sl.Payee.PrivateSpendKey, sl.Cust.PrivateSpendKey)
+		variant[3][k] = w.encode(fmt.Sprintf("e%d-cvpv", k), custV, payeeV, sl.Signer.PrivateSpendKey, sl.Payee.PrivateSpendKey, sl.Cust.PrivateSpendKey)
+	}
+	for ledger := 0; ledger < 3; ledger++ {
+		for hi, header := range []common.Address{w.G, w.N} {
+			for j := -1; j < 7; j++ { // -1 = every slot
+				for kind := 1; kind <= 3; kind++ {
+					var ents []*c34Ent
+					for k := 0; k < 7; k++ {
+						if j == -1 || j == k {
+							ents = append(ents, variant[kind][k])
+						} else {
+							ents = append(ents, w.base[k])
+						}
+					}
+					ents = c34Sorted(ents)
+					extra := c34Approve(c34Body(c34Pub(header), ents), g.currentKey(ledger, false), 0)
+					for rel := -1; rel <= 1; rel++ {
+						g.add(&c34Case{Label: fmt.Sprintf("view:L%d:h%d:j%d:k%d:a%d", ledger, hi, j, kind, rel), Group: "view-keys", Ledger: ledger, Extra: extra, AmtRel: rel, Ents: ents, Header: c34Pub(header)})
+					}
+				}
+			}
+		}
+	}
+}
+
 // genSigRoles: one entry whose three signature fields are made by every
 // combination of {signer, payee, custodian, stranger} keys.
 func (g *c34Gen) genSigRoles() {
@@ -794,7 +834,7 @@ func c34SameEntries(req *common.CustodianUpdateRequest, v *c34Verdict) string {
 func TestMC_C34(t *testing.T) {
 	c := verifmc.Start(t, "C34", "exploration")
 	defer c.Finish()
-	c.SetRule("custodian-update transactions validated by the real Validate on a real BadgerStore: all 5040 orderings of a 7-entry update; every subset of sizes 6..9 of a 9-entry pool x update account {same,other} x payee-change masks x amount {price-1e-8, price, price+1e-8} x 3 previous custodian states; every ordered pair of entries sharing a custodian key / payee key / custodian=payee; single-byte (2 bit positions) mutations of every byte of header, one entry and approval, before and after approving; approval signer x signed message x previous state x instant; output shape x asset x amount; all 64 signature-role assignments of each entry. A case is distinct by (previous state, instant, update bytes, amount, output shape, asset)")
+	c.SetRule("custodian-update transactions validated by the real Validate on a real BadgerStore: all 5040 orderings of a 7-entry update; every subset of sizes 6..9 of a 9-entry pool x update account {same,other} x payee-change masks x amount {price-1e-8, price, price+1e-8} x 3 previous custodian states; every ordered pair of entries sharing a custodian key / payee key / custodian=payee; single-byte (2 bit positions) mutations of every byte of header, one entry and approval, before and after approving; approval signer x signed message x previous state x instant; output shape x asset x amount; all 64 signature-role assignments of each entry; entries reusing a previous custodian / payee SPEND key under a different VIEW key (one slot or all, x previous state x account x amount). A case is distinct by (previous state, instant, update bytes, amount, output shape, asset)")
 	c.Assume("crypto.Key.Verify / Blake3 are the trusted base of the reference predicate", "the reference price counts an entry as new when its custodian address (spend+view key) is absent from the previous state, and as changed when the payee address differs",
 		"snapshots are finalized at the storage layer (no kernel election / hour window)")
 
@@ -812,6 +852,7 @@ func TestMC_C34(t *testing.T) {
 	g.genApprovals()
 	g.genOutputs()
 	g.genSigRoles()
+	g.genViewKeys()
 
 	// funding outputs needed per ledger
 	var need [3]map[string]bool
@@ -1019,7 +1060,7 @@ func TestMC_C34(t *testing.T) {
 		}
 		return n
 	}
-	for _, grp := range []string{"orderings", "sizes", "pairs", "mutations", "approvals", "outputs", "sig-roles"} {
+	for _, grp := range []string{"orderings", "sizes", "pairs", "mutations", "approvals", "outputs", "sig-roles", "view-keys"} {
 		c.Set("cases_"+grp, groupCount(grp, ""))
 		c.Set("accepted_"+grp, groupCount(grp, "accept"))
 	}
@@ -1036,5 +1077,6 @@ func TestMC_C34(t *testing.T) {
 	for _, o := range []string{"reject:sort-order", "reject:duplicate-key", "reject:custodian-equals-payee", "reject:payee-signature", "reject:custodian-signature", "reject:approval", "reject:price", "reject:account-nodes-mismatch", "reject:extra-size", "reject:extra-length", "reject:action", "roundtrip:ok", "finalize:ok"} {
 		c.Require(c.OutcomeCount(o) > 0, "outcome %s never reached", o)
 	}
+	c.Require(groupCount("view-keys", "accept") > 20 && groupCount("view-keys", "reject:price") > 20, "view-keys group vacuous: %d accepted %d underpaid", groupCount("view-keys", "accept"), groupCount("view-keys", "reject:price"))
 	c.Require(len(fin) >= 10, "only %d accepted updates finalized", len(fin))
 }
